@@ -113,7 +113,7 @@ BOUNDS = {"quick": "period in [1,4], each call consuming 0..2 (< period) ticks o
                    "part (gate threads, controlled clock): EventLoop / NewThread / ThreadPool / Timeout schedulers and CatchScheduler "
                    "(verdict True / False) over an event loop, period 1..2 s, call duration 0..period, dispose after 1..4 s from a "
                    "client thread, raise at call 1..2 or never, 1 preemption (coarse yield points; 'time passes' moves)",
-          "thorough": "same with the thorough budget; threaded part: 5 (period, duration) pairs, 2 ordered preemptions"}
+          "thorough": "same with the thorough budget; threaded part: 5 (period, duration) pairs, instruction-level (fine) yield points"}
 ASSUMES = ["Tick/Span time stub for the numeric schedulers", "a call due exactly at the dispose instant does not happen (the dispose action "
            "was scheduled first: FIFO, C28)", "threaded part: threading.Timer / Event / Condition / Lock and ThreadPoolExecutor are gate-aware contract stubs on a "
            "controlled clock; 'exactly at k*period' is required of the undisturbed run, 'never before k*period' of every schedule; a "
